@@ -325,7 +325,10 @@ C09(pre, e, post, line) ==
        \A bn \in (DOMAIN post.banks) \cap (DOMAIN pre.banks) :
          LET b == pre.banks[bn] q == post.banks[bn] IN
          (q.cache.price_ts # b.cache.price_ts \/ q.cache.price # b.cache.price) =>
-           LET pr == RefPrice(pre, e, bn, "RT") IN
+           \* (the cache is refreshed at the end of the instruction: a venue reserve is read as the instruction, or an earlier
+           \*  instruction of the same transaction, left it)
+           LET preV == IF Has(post, "reserves") /\ Has(pre, "reserves") THEN [pre EXCEPT !.reserves = post.reserves] ELSE pre
+               pr == RefPrice(preV, e, bn, "RT") IN
            pr.known =>
              /\ Chk("C09", "cached_price_only_from_usable_oracle", line, pr.usable # "no", [bank |-> bn, ev |-> e.ev])
              /\ (pr.usable # "no") =>
